@@ -1397,4 +1397,320 @@ theorem gz_contains_table' :
     nameShapes.map (GzPred.contains [46, 103, 122]).eval = [false, true, true, true, true, false, true, false, true] ∧
     nameShapes.map (GzPred.endsWith [46, 103, 122]).eval = [false, true, false, false, false, false, true, false, true] := by
   decide
+
+theorem nCompleteB_nil_data (c : Codec) (U : List Rec) (hc : c.Lawful U) (L : List Rec) (hL : ∀ r ∈ L, r ∈ U) :
+    nCompleteB c L [] = 0 := by
+  cases L with
+  | nil => rfl
+  | cons x rs =>
+    have hne := hc.ne x (hL x (by simp))
+    have : (c.enc x).isPrefixOf ([] : Bytes) = false := by
+      cases h : c.enc x with
+      | nil => exact absurd h hne
+      | cons b bs => rfl
+    simp [nCompleteB, this]
+
+/-- counting the complete records of a cut file: `j` complete lines, plus one when the tail is a whole record text -/
+theorem nCompleteB_shape (c : Codec) (U : List Rec) (hc : c.Lawful U) (L : List Rec) (hL : ∀ r ∈ L, r ∈ U)
+    (j : Nat) (p : Bytes) :
+    ((p = [] ∨ ∃ x, L[j]? = some x ∧ p <+: c.enc x ∧ p ≠ c.enc x) →
+      nCompleteB c L (serialize ((L.take j).map c.enc) ++ p) = (L.take j).length) ∧
+    ((∃ x, L[j]? = some x ∧ p = c.enc x) →
+      nCompleteB c L (serialize ((L.take j).map c.enc) ++ p) = (L.take j).length + 1) := by
+  induction j generalizing L with
+  | zero =>
+    cases L with
+    | nil =>
+      constructor
+      · intro _; simp [nCompleteB]
+      · rintro ⟨x, hx, _⟩; simp at hx
+    | cons x rs =>
+      have hxU := hL x (by simp)
+      have hne := hc.ne x hxU
+      constructor
+      · intro h
+        have hnp : (c.enc x).isPrefixOf p = false := by
+          cases hb : (c.enc x).isPrefixOf p with
+          | false => rfl
+          | true =>
+            exfalso
+            have hpre := List.isPrefixOf_iff_prefix.mp hb
+            rcases h with rfl | ⟨y, hy, hp1, hp2⟩
+            · exact hne (List.prefix_nil.mp hpre)
+            · simp at hy; subst hy
+              exact hp2 (List.IsPrefix.eq_of_length_le hp1 hpre.length_le)
+        simp [serialize, nCompleteB, hnp]
+      · rintro ⟨y, hy, hp⟩
+        simp at hy; subst hy
+        have : (c.enc x).isPrefixOf p = true := by rw [hp]; exact List.isPrefixOf_iff_prefix.mpr (List.prefix_refl _)
+        have hd : p.drop ((c.enc x).length + 1) = [] := by rw [hp]; exact List.drop_eq_nil_of_le (by omega)
+        simp [serialize, nCompleteB, this, hd, nCompleteB_nil_data c U hc rs (fun r hr => hL r (List.mem_cons_of_mem _ hr))]
+  | succ j ih =>
+    cases L with
+    | nil =>
+      constructor
+      · intro _; simp [nCompleteB]
+      · rintro ⟨x, hx, _⟩; simp at hx
+    | cons x rs =>
+      have hrs : ∀ r ∈ rs, r ∈ U := fun r hr => hL r (List.mem_cons_of_mem _ hr)
+      have hdata : serialize (((x :: rs).take (j + 1)).map c.enc) ++ p
+          = c.enc x ++ NL :: (serialize ((rs.take j).map c.enc) ++ p) := by
+        simp [serialize]
+      have hpre : (c.enc x).isPrefixOf (c.enc x ++ NL :: (serialize ((rs.take j).map c.enc) ++ p)) = true :=
+        List.isPrefixOf_iff_prefix.mpr (List.prefix_append _ _)
+      have hdrop : (c.enc x ++ NL :: (serialize ((rs.take j).map c.enc) ++ p)).drop ((c.enc x).length + 1)
+          = serialize ((rs.take j).map c.enc) ++ p := by
+        have : c.enc x ++ NL :: (serialize ((rs.take j).map c.enc) ++ p) = (c.enc x ++ [NL]) ++ (serialize ((rs.take j).map c.enc) ++ p) := by simp
+        rw [this]
+        exact List.drop_left' (by simp)
+      obtain ⟨ih1, ih2⟩ := ih rs hrs
+      constructor
+      · intro h
+        rw [hdata]
+        simp only [nCompleteB, hpre, if_true, hdrop]
+        rw [ih1 (by simpa using h)]
+        simp; omega
+      · intro h
+        rw [hdata]
+        simp only [nCompleteB, hpre, if_true, hdrop]
+        rw [ih2 (by simpa using h)]
+        simp; omega
+
+/-- `_drop_torn_tail` + decoding restores EXACTLY the maximal prefix of complete records, for every cut point -/
+theorem restore_maximal_prefix' (fl : Flags) (hr : fl.repairPlain = true) (w : World) (hw : w.OK) (L : List Rec)
+    (hL : ValidLog w L) (k : Nat) :
+    restore fl w.c (some (cut w L k)) =
+      some ⟨logFile w (L.take (nCompleteB w.c L (cut w L k))), L.take (nCompleteB w.c L (cut w L k))⟩ := by
+  obtain ⟨j, p, K, h1, h2, hres, hKL, hjK⟩ := restore_fixed fl hr w hw L hL k
+  -- which of the two shapes? decided by whether the tail is the whole text of record j
+  have hn : nCompleteB w.c L (cut w L k) = K.length := by
+    simp only [cut, logFile]
+    rw [h1]
+    obtain ⟨s1, s2⟩ := nCompleteB_shape w.c w.universe hw.codec L hL.2.1 j p
+    -- K is `L.take j` or `L.take (j+1)`; recover it from the repaired file
+    have hrep : repair w.c (serialize ((L.take j).map w.c.enc) ++ p) = serialize (K.map w.c.enc) := by
+      have := hres
+      simp only [restore, hr, if_true, Bool.true_and] at this
+      rw [h1] at this
+      split at this
+      · rename_i he
+        have hK : K = [] := by
+          have := Option.some.inj this
+          exact (congrArg Restore.K this).symm
+        rw [hK]; simpa [serialize] using he
+      · split at this
+        · have := Option.some.inj this
+          exact congrArg Restore.file1 this
+        · cases this
+    have hA : ∀ r ∈ L.take j, r ∈ w.universe := fun r hr => hL.2.1 r (List.mem_of_mem_take hr)
+    have hp' : p = [] ∨ ∃ r ∈ w.universe, p <+: w.c.enc r := by
+      rcases h2 with h | ⟨x, hx, hp⟩
+      · exact Or.inl h
+      · exact Or.inr ⟨x, hL.2.1 x (List.mem_of_getElem? hx), hp⟩
+    have hinj : ∀ A B : List Rec, (∀ r ∈ A, r ∈ w.universe) → (∀ r ∈ B, r ∈ w.universe) →
+        serialize (A.map w.c.enc) = serialize (B.map w.c.enc) → A = B := by
+      intro A B hAU hBU he
+      have ha := decodeLines_map_enc w.c A (fun r hr => hw.codec.dec_enc r (hAU r hr))
+      have hb := decodeLines_map_enc w.c B (fun r hr => hw.codec.dec_enc r (hBU r hr))
+      have la := lines_serialize (A.map w.c.enc)
+        (fun r hr => by obtain ⟨x, hx, rfl⟩ := List.mem_map.mp hr; exact hw.codec.noNL x (hAU x hx))
+        (fun r hr => by obtain ⟨x, hx, rfl⟩ := List.mem_map.mp hr; exact hw.codec.ne x (hAU x hx))
+      have lb := lines_serialize (B.map w.c.enc)
+        (fun r hr => by obtain ⟨x, hx, rfl⟩ := List.mem_map.mp hr; exact hw.codec.noNL x (hBU x hx))
+        (fun r hr => by obtain ⟨x, hx, rfl⟩ := List.mem_map.mp hr; exact hw.codec.ne x (hBU x hx))
+      rw [he, lb] at la
+      rw [← la, hb] at ha
+      exact (Option.some.inj ha).symm
+    have hKU : ∀ r ∈ K, r ∈ w.universe := fun r hr => hL.2.1 r (hKL.subset hr)
+    rcases repair_cut w.c w.universe (L.take j) hw.codec hA p hp' with ⟨hr1, hcase⟩ | ⟨r, hrU, hpr, hrep2⟩
+    · have hK : K = L.take j := (hinj _ _ hA hKU (by rw [← hr1, hrep])).symm
+      rw [hK]
+      apply s1
+      rcases h2 with h | ⟨x, hx, hp⟩
+      · exact Or.inl h
+      · by_cases hpe : p = []
+        · exact Or.inl hpe
+        · right
+          refine ⟨x, hx, hp, ?_⟩
+          intro hpx
+          rcases hcase with h | ⟨r, hrU, hp1, hp2⟩
+          · exact hpe h
+          · have hxU := hL.2.1 x (List.mem_of_getElem? hx)
+            have := hw.codec.torn r hrU p hp1 hp2
+            rw [hpx, hw.codec.dec_enc x hxU] at this
+            cases this
+    · rcases h2 with h | ⟨x, hx, hp⟩
+      · exact absurd (hpr ▸ h) (hw.codec.ne r hrU)
+      · have hxU := hL.2.1 x (List.mem_of_getElem? hx)
+        have hpx : p = w.c.enc x := by
+          by_contra hne
+          have := hw.codec.torn x hxU p hp hne
+          rw [hpr, hw.codec.dec_enc r hrU] at this
+          cases this
+        have hrx : r = x := by
+          have := hw.codec.dec_enc r hrU
+          rw [← hpr, hpx, hw.codec.dec_enc x hxU] at this
+          exact (Option.some.inj this).symm
+        subst hrx
+        have hK : K = L.take j ++ [r] := by
+          refine (hinj _ _ ?_ hKU (by rw [← hrep2, hrep])).symm
+          intro y hy
+          rcases List.mem_append.mp hy with h | h
+          · exact hA y h
+          · simp at h; rw [h]; exact hrU
+        rw [hK, s2 ⟨r, hx, hpx⟩]
+        simp
+  have hK : K = L.take K.length := List.prefix_iff_eq_take.mp hKL
+  rw [hn]
+  simp only [cut, logFile] at hres ⊢
+  rw [← hK]
+  exact hres
+
+/-- resuming a COMPLETE log: nothing that has a record is run again, nothing is appended, the file is byte-identical -/
+theorem resume_idempotent_gen' (fl : Flags) (hr : fl.repairPlain = true) (w : World) (hw : w.OK)
+    (hI : fl.finishedFix = true ∨ NonEmptyI w) (L : List Rec) (hL : ValidLog w L) (hfull : L.Perm w.universe) :
+    ∃ o, resume fl w (some (logFile w L)) = some o ∧ o.restored.K = L ∧ o.appended = [] ∧
+      o.file = logFile w L ∧ o.final = some L ∧ (∀ t ∈ o.tasks, w.out t = none) := by
+  have hres := restore_clean fl hr w hw L hL
+  have hverL : w.ver ∈ L := hfull.symm.subset (by simp [World.universe])
+  have hexpL : w.exp ∈ L := hfull.symm.subset (by simp [World.universe])
+  have hne : L ≠ [] := by rintro rfl; simp at hverL
+  have hI' : fl.finishedFix = true ∨ NonEmptyI w ∨ L = [] := hI.elim Or.inl (fun h => Or.inr (Or.inl h))
+  have hT := makeTasks_nodup' _ hw.triples_nodup
+  -- every task that is still run has no record
+  have htasks : ∀ t ∈ makeTasks fl.finishedFix L w.triples, w.out t = none := by
+    intro t ht
+    rw [makeTasks_filter, List.mem_filter] at ht
+    cases ho : w.out t with
+    | none => rfl
+    | some r =>
+      exfalso
+      have hrU : r ∈ w.universe := (mem_universe_iff w r).mpr (Or.inr (Or.inr ⟨t, ht.1, ho⟩))
+      have hrL : r ∈ L := hfull.symm.subset hrU
+      have hd := (done_iff w fl.finishedFix L hI' hL.2.1 t).mpr ⟨r, hrL, hw.out_key t r ho⟩
+      simp [hd] at ht
+  have happ : (makeTasks fl.finishedFix L w.triples).filterMap w.out = [] := by
+    rw [List.filterMap_eq_nil_iff]
+    exact htasks
+  have hpre : preamble fl w.ver w.exp L = [] := by
+    rcases preamble_spec w hw hT fl L hL.2.1 (Or.inr (Or.inr hexpL)) with ⟨h, _⟩ | ⟨_, _, h⟩ | ⟨_, h, _⟩
+    · exact absurd h hne
+    · exact h
+    · exact absurd hexpL h
+  have hfin := finish_correct w hw hT fl.finishedFix L hI' hL fl (Or.inr (Or.inr hexpL)) [] (by rw [happ])
+  refine ⟨_, by simp only [resume, hres]; rfl, rfl, ?_, ?_, ?_, htasks⟩
+  · simp [finish, hpre, happ]
+  · simp [finish, hpre, happ, serialize, logFile]
+  · have := hfin.2.1
+    simp only [finish, hpre, happ, List.append_nil] at this ⊢
+    simpa [happ, logFile] using this
+
+/-- `.gz`: a complete file loses no byte in the repair, reads as the same text, and still does after the run has appended
+its end-of-run member with an empty payload -/
+theorem resume_idempotent_gz' (fl : Flags) (hg : fl.repairGz = true) (w : World) (L : List Rec) (scan : MScan)
+    (ms : List Member) (e : Member) (he : e.payload = []) (hlaws : MLaws scan (ms ++ [e])) (hpl : PayloadLog w.c ms L) :
+    gzRepair scan (flatM ms) = flatM ms ∧ gzText fl scan (flatM ms) = some (logFile w L) ∧
+    gunzip scan (flatM ms ++ e.bytes) = some (logFile w L) := by
+  have hl1 : MLaws scan ms := hlaws.mono (fun m hm => List.mem_append_left _ hm)
+  have h1 := (memberScan_spec' scan ms hl1 ms (fun m hm => hm) [] (Or.inl rfl)).2
+  simp only [List.append_nil] at h1
+  have hpay := payloadLog_payloads w.c ms L hpl
+  refine ⟨h1, ?_, ?_⟩
+  · simp only [gzText, hg, if_true, h1]
+    rw [gunzip_spec' scan ms hl1 ms (fun m hm => hm), hpay]; rfl
+  · have : flatM ms ++ e.bytes = flatM (ms ++ [e]) := by simp [flatM_append, flatM]
+    rw [this, gunzip_spec' scan _ hlaws _ (fun m hm => hm), payloadsM_append, hpay]
+    simp [payloadsM, he, logFile]
+
+theorem byteStep_spec (fl : Flags) (hr : fl.repairPlain = true) (hp : fl.preambleFix = true) (w : World) (hw : w.OK)
+    (hI : fl.finishedFix = true ∨ NonEmptyI w) (L : List Rec) (hL : ValidLog w L) (k : Nat) :
+    (∃ g, ByteStep fl w (logFile w L) k g) ∧
+    ∀ g, ByteStep fl w (logFile w L) k g → ∃ M, g = logFile w M ∧ ValidLog w M ∧ M.Perm w.universe ∧
+      decodeAll w.c g = some M := by
+  obtain ⟨j, p, K, h1, h2, hKL, hjK, hres, hfin⟩ := resume_correct_gen' fl hr hp w hw hI L hL k
+  constructor
+  · exact ⟨_, ⟨_, _, hres, List.Perm.refl _, rfl⟩⟩
+  · rintro g ⟨R, app, hR, happ, hg⟩
+    have hRK : R = ⟨serialize (K.map w.c.enc), K⟩ := by
+      have : some R = some (⟨serialize (K.map w.c.enc), K⟩ : Restore) := by
+        rw [← hR, ← hres]; rfl
+      exact Option.some.inj this
+    subst hRK
+    obtain ⟨hfile, hfinal, hvalid, hperm, _⟩ := hfin app happ
+    refine ⟨_, ?_, hvalid, hperm, ?_⟩
+    · rw [← hg]; exact hfile
+    · rw [← hg]
+      have : (finish w.c ⟨serialize (K.map w.c.enc), K⟩ (makeTasks fl.finishedFix K w.triples)
+          (preamble fl w.ver w.exp K) app).final = decodeAll w.c (finish w.c ⟨serialize (K.map w.c.enc), K⟩
+          (makeTasks fl.finishedFix K w.triples) (preamble fl w.ver w.exp K) app).file := rfl
+      rw [← this]; exact hfinal
+
+theorem cut_resume_end_to_end_gen' (fl : Flags) (hr : fl.repairPlain = true) (hp : fl.preambleFix = true) (w : World)
+    (hw : w.OK) (hI : fl.finishedFix = true ∨ NonEmptyI w) (L : List Rec) (hL : ValidLog w L) :
+    (∀ ks, ∃ h, ByteChain fl w ks (logFile w L) h) ∧
+    (∀ ks h, ByteChain fl w ks (logFile w L) h → ∃ F, h = logFile w F ∧ ValidLog w F ∧
+      (ks ≠ [] → decodeAll w.c h = some F ∧ F.Perm w.universe ∧ ∀ key, bodies F key = bodies w.universe key)) := by
+  have hUk := universe_keys_nodup w hw (makeTasks_nodup' _ hw.triples_nodup)
+  constructor
+  · intro ks
+    induction ks generalizing L with
+    | nil => exact ⟨_, ByteChain.nil _⟩
+    | cons k ks ih =>
+      obtain ⟨⟨g, hg⟩, hall⟩ := byteStep_spec fl hr hp w hw hI L hL k
+      obtain ⟨M, rfl, hMv, _, _⟩ := hall g hg
+      obtain ⟨h, hh⟩ := ih M hMv
+      exact ⟨h, ByteChain.cons hg hh⟩
+  · intro ks h hc
+    generalize hf : logFile w L = f at hc
+    induction hc generalizing L with
+    | nil f => exact ⟨L, hf.symm, hL, fun h => absurd rfl h⟩
+    | @cons k ks f g h hstep hrest ih =>
+      subst hf
+      obtain ⟨M, hgM, hMv, hMp, hMd⟩ := (byteStep_spec fl hr hp w hw hI L hL k).2 g hstep
+      obtain ⟨F, hF, hFv, hFp⟩ := ih M hMv hgM.symm
+      refine ⟨F, hF, hFv, fun _ => ?_⟩
+      cases hrest with
+      | nil =>
+        have : F = M := by
+          have hinj : logFile w F = logFile w M := by rw [← hF, hgM]
+          have hd := hMd
+          rw [hgM, ← hinj] at hd
+          -- decode of the file of a valid log is that log
+          cases hFe : F with
+          | nil =>
+            rw [hFe] at hinj
+            have : M = [] := by
+              cases M with
+              | nil => rfl
+              | cons a b => simp [logFile, serialize] at hinj
+            exact this.symm
+          | cons r0 F' =>
+            have h0 : r0 = w.ver := hFv.2.2 r0 (by rw [hFe]; rfl)
+            have := decodeAll_serialize w.c w.universe F hw.codec hFv.2.1 r0 F' hFe (h0 ▸ hw.ver_key)
+            rw [← hFe]
+            simp only [logFile] at hd
+            rw [this] at hd
+            exact Option.some.inj hd
+        subst this
+        exact ⟨by rw [hF]; rw [← hgM]; exact hMd, hMp, fun key => bodies_eq_of_perm' hMp hUk key⟩
+      | cons h1 h2 => exact hFp (by simp)
+
+/-- the entry point reduces to the protocol on the text of the file: a missing directory raises, a plain name hands the
+bytes over as they are, a gzip name hands over the text of the (repaired) members; `Result.from_file` on the file a run
+leaves returns the Result the run returned -/
+theorem entry_glue' (fl : Flags) (w : World) (isGz : GzPred) (scan : MScan) (name : Bytes) :
+    (∀ file, runEntry fl w isGz scan ⟨name, false, file⟩ = none) ∧
+    (runEntry fl w isGz scan ⟨name, true, none⟩ = resume fl w none) ∧
+    (isGz.eval name = false → ∀ data, runEntry fl w isGz scan ⟨name, true, some data⟩ = resume fl w (some data)) ∧
+    (isGz.eval name = true → ∀ data, runEntry fl w isGz scan ⟨name, true, some data⟩ =
+        (gzText fl scan data).bind (fun text => resume fl w (some text))) ∧
+    (isGz.eval name = false → ∀ R tasks pre app,
+        fromFile w.c isGz scan name (finish w.c R tasks pre app).file = (finish w.c R tasks pre app).final) := by
+  refine ⟨fun file => by simp [runEntry, entryText], by simp [runEntry, entryText], ?_, ?_, ?_⟩
+  · intro h data; simp [runEntry, entryText, h]
+  · intro h data
+    simp only [runEntry, entryText, h, Bool.not_true, Bool.false_eq_true, if_false, if_true]
+    cases gzText fl scan data <;> rfl
+  · intro h R tasks pre app
+    simp [fromFile, h, finish]
 end Coba.C02
